@@ -686,6 +686,8 @@ def run(cx):
             check_fieldwise_clone(ob, prog, ty)
             check_poll_ready_delegates(ob, prog, ty)
         check_fieldwise_clone(ob, prog, "anemo::network::peer::Peer")          # a cloned Peer keeps the outbound layer (with the timeout) and the config
+        check_derived(ob, prog, "anemo::config::Config", "core::default::Default")
+        check_builder_setters(ob, prog, "anemo::network::Builder", {"config": ("config", "config"), "outbound_request_layer": ("outbound_request_layer", "layer")})
 
     with cx.ob("C11.7", "R-WRITERS", "one layer out: the configured request timeouts are never rewritten after the Config was built; the handler runs as part of the request future (no spawn on the request path, C08.7 re-evaluated), so dropping that future at the deadline drops the handler") as ob:
         check_config_immutable(ob, prog, ["inbound_request_timeout_ms", "outbound_request_timeout_ms"])
